@@ -31,7 +31,7 @@ pub const FAULT_KINDS: &[FaultKind] = &[
 
 pub fn tolerances() -> Vec<Option<u64>> {
     let mut v: Vec<Option<u64>> = vec![None];
-    for t in [0.0, -0.0, 5e-324, 1e-14, 1e-10, 1e-6, 1e-3, 1.0, 1e3, f64::MAX, f64::INFINITY, f64::NAN, -1.0, f64::NEG_INFINITY] {
+    for t in [0.0, -0.0, 5e-324, 1e-14, 1e-10, 1e-6, 1e-3, 1.0, 1e3, f64::MAX, f64::INFINITY, f64::NAN, -1.0, f64::NEG_INFINITY, -5e-324, -1e-17] {
         v.push(Some(f64::to_bits(t)));
     }
     v
@@ -204,6 +204,14 @@ pub fn judge_ok(dec: &Dec, mat: &[u64], n: usize, tol: Option<u64>, natural: boo
             v.push(V16 {
                 class: "ok-although-distance-not-at-most-tolerance".into(),
                 what: "tolerance is NaN: no distance is at most NaN, yet Ok was returned".into(),
+            });
+        } else if t < 0.0 {
+            // a distance is never negative: whatever rounding the evaluation of the
+            // norm suffers, no result may be accepted under a negative tolerance
+            // (catches allowances subtracted from the error / added to the tolerance)
+            v.push(V16 {
+                class: "ok-although-distance-not-at-most-tolerance".into(),
+                what: format!("tolerance {:e} is negative: no distance is at most that, yet Ok was returned", t),
             });
         } else {
             // (iii) distance recomputed exactly
